@@ -206,7 +206,8 @@ fn c29(ctx: &mut Ctx, eng: &mut Engine, pool: &Pool) {
     let k = ctx.tier().pick(3, 8);
     let mut cases = vec![];
     for cp in &pool.corpus {
-        if cp.spec.traits.safe {
+        // reproducers of confirmed C28 findings (k_*) are judged by C28 under their own signatures
+        if cp.spec.traits.safe && !cp.spec.traits.classes.iter().any(|c| c == "known-finding") {
             cases.extend(order_cases(&cp.spec, &mut ch, k));
         }
     }
